@@ -159,10 +159,10 @@ pub const WS: [u32; 4] = [1, 2, 4, 8];
 
 /// message lengths at the SHA-256 padding and SHAKE256 rate boundaries, plus a few large ones
 pub fn message_lengths(ctx: &Ctx) -> Vec<usize> {
-    let mut v = vec![0, 1, 31, 32, 33, 55, 56, 64, 119, 120, 135, 136, 137, 4096];
+    let mut v = vec![0, 1, 31, 32, 33, 55, 56, 64, 119, 120, 135, 136, 137, 4096, 65535, 65536, 65537];
     if !ctx.quick() {
-        v.push(65536);
         v.push(1 << 20);
+        v.push((1 << 20) + 3);
     }
     v
 }
